@@ -743,8 +743,14 @@ def run_pair(sh, np, nt, O, frclim, routes, i):
     if ref.selfgap > 1e-6:
         raise RuntimeError(f"oracle primal/dual assemblies disagree: {ref.selfgap}")
     ok = ref.ok
-    sh.count("mon:freq-accepted", int(ok.sum()))
-    sh.count("mon:freq-refused", int((~ok).sum()))
+    if p.get("dashpot_body"):
+        # graded by eigenvector conditioning by design (see route_error): these pairs do
+        # not enter the refusal quota of the ordinary ones
+        sh.count("mon:freq-accepted-dashpot-body", int(ok.sum()))
+        sh.count("mon:freq-refused-dashpot-body", int((~ok).sum()))
+    else:
+        sh.count("mon:freq-accepted", int(ok.sum()))
+        sh.count("mon:freq-refused", int((~ok).sum()))
     sh.case(["pair", i, fs_["form"], fl_["form"]], bool(np.any(fphys) and ok.any()),
             sample=case)
     if not ok.any():
